@@ -600,12 +600,21 @@ def minimize_subcircuits(
             logger.debug("Subcircuit can't be replaced (e.g. circuit becomes cyclic)")
             continue
 
+        # gates of the old cone that are gone now (their labels may be not reused)
+        replaced_gates = _get_internal_gates(
+            circuit,
+            list(input_labels_mapping.keys()),
+            list(output_labels_mapping.keys()),
+        )
         circuit = new_circuit
         logger.debug("Improved circuit size")
 
         # Update the states
         for output in output_labels_mapping:
             node_states[output] = _NodeState.REMOVED
+
+        for gate in replaced_gates:
+            node_states[gate] = _NodeState.REMOVED
 
         for gate in _get_internal_gates(
             circuit,
